@@ -9,6 +9,20 @@ bounds checked before the right-hand side), then evaluates the right-hand side, 
 namespace HmsProofs.Sim
 open Hms.Core Hms.Core.Comp Hms.Core.VM
 
+theorem okV_index {fr : Bool} {sp ty b i} (h : Frag.okV fr (.index sp ty b i) = true) :
+    Frag.okV fr b = true ∧ Frag.okV fr i = true := by
+  simp only [Frag.okV, Frag.okXE, Frag.okE, Bool.or_eq_true, Bool.and_eq_true] at h ⊢
+  rcases h with ⟨⟨hb, hi⟩, _⟩ | ⟨⟨⟨_, hb⟩, hi⟩, _⟩
+  · exact ⟨Or.inl hb, Or.inl hi⟩
+  · exact ⟨Or.inr hb, Or.inr hi⟩
+
+theorem okV_member {fr : Bool} {sp ty b name} (h : Frag.okV fr (.member sp ty b name .dot) = true) :
+    Frag.okV fr b = true := by
+  simp only [Frag.okV, Frag.okXE, Frag.okE, Bool.or_eq_true, Bool.and_eq_true] at h ⊢
+  rcases h with hb | ⟨_, hb⟩
+  · exact Or.inl hb
+  · exact Or.inr hb
+
 theorem wsGE_index {scopes φ sp ty b i} (h : Frag.wsGE scopes φ (.index sp ty b i) = true) :
     Frag.wsGE scopes φ b = true ∧ Frag.wsGE scopes φ i = true := by
   simp only [Frag.wsGE, Frag.varsGE, Frag.callsGE, resolved_append, callsOK_append, Bool.and_eq_true] at h ⊢
@@ -42,11 +56,11 @@ theorem SimPl.of_error {G : GCtx} {A : Act} {ip n stk mem st c st'}
 
 /-- **`l = e` and `l op= e` for a heap slot `l`**, given the slot (`SimPl`) and the value-position
 expressions at the fuel of the right-hand side. -/
-theorem placeAssign_step (G : GCtx) (n : Nat) (hPX1 : PX G (n + 1))
+theorem placeAssign_step (G : GCtx) (n : Nat) (hPX1 : PV G (n + 1))
     (A : Act) (hA : A.OK G) (loops : List (String × String)) (lscopes : CScopes) (d : Nat)
     (asp : Span) (op : Option InfixOp) (l r : Expr) (cl : SCode × LM)
     (env : CEnv) (spec : St) (ip : Nat) (stk : List SVal) (mem : Mem)
-    (hop : opOK op = true) (hr : Frag.okXE r = true) (hwr : Frag.wsGE env.scopes A.φ r = true)
+    (hop : opOK op = true) (hr : Frag.okV G.fr r = true) (hwr : Frag.wsGE env.scopes A.φ r = true)
     (hTr : ∀ x ∈ Frag.namesGE r, x ∈ A.T)
     (hpl : Placed A.lab A.σ A.c ip (cl.1 ++ opPre op asp ++ (cgE G.mod (ρS env.scopes) A.φ r cl.2).1 ++ opPost op asp ++
       [(.assign, asp)]))
@@ -162,17 +176,16 @@ theorem placeAssign_step (G : GCtx) (n : Nat) (hPX1 : PX G (n + 1))
           (by omega)
 
 /-- **The slot `l[i]`**: `code(l); code(i); Index` against `evalPlace`. -/
-theorem index_place (G : GCtx) (n : Nat) (hPX0 : PX G n) (A : Act) (hA : A.OK G)
+theorem index_place (G : GCtx) (n : Nat) (hPX0 : PV G n) (A : Act) (hA : A.OK G)
     (isp : Span) (ity : Ty) (b i : Expr) (lm : LM) (scopes : CScopes) (vm : List (String × Nat))
     (spec : St) (ip : Nat) (stk : List SVal) (mem : Mem)
-    (hl : Frag.okXE (.index isp ity b i) = true) (hwl : Frag.wsGE scopes A.φ (.index isp ity b i) = true)
+    (hl : Frag.okV G.fr (.index isp ity b i) = true) (hwl : Frag.wsGE scopes A.φ (.index isp ity b i) = true)
     (hT : ∀ x ∈ Frag.namesGE (.index isp ity b i), x ∈ A.T)
     (hpl : Placed A.lab A.σ A.c ip (cgE G.mod (ρS scopes) A.φ (.index isp ity b i) lm).1)
     (hrel : StRel G.mod A.T A.N A.σ G.lim A.mp scopes vm spec.scopes mem) (hsp : SpecOK G A.mp spec) :
     SimPl G A ip (nI (cgE G.mod (ρS scopes) A.φ (.index isp ity b i) lm).1) stk mem spec
       (evalPlace G.cfg (n + 1) (.index isp ity b i) spec) := by
-  simp only [Frag.okXE, Bool.and_eq_true] at hl
-  obtain ⟨⟨hb, hi⟩, _⟩ := hl
+  obtain ⟨hb, hi⟩ := okV_index hl
   obtain ⟨hwb, hwi⟩ := wsGE_index hwl
   obtain ⟨hTb, hTi⟩ := namesGE_index hT
   simp only [cgE] at hpl ⊢
@@ -228,7 +241,7 @@ theorem index_place (G : GCtx) (n : Nat) (hPX0 : PX G n) (A : Act) (hA : A.OK G)
   exact ⟨hfr12, hvar, mem2, cur, hread, (hrun12.trans hidx).cast (by omega), hml12⟩
 
 /-- **`l[i] = e` and `l[i] op= e`**, given the value-position expressions at the two fuels below. -/
-theorem idxAssign_step (G : GCtx) (n : Nat) (hPX0 : PX G n) (hPX1 : PX G (n + 1))
+theorem idxAssign_step (G : GCtx) (n : Nat) (hPX0 : PV G n) (hPX1 : PV G (n + 1))
     (A : Act) (hA : A.OK G) (loops : List (String × String)) (lscopes : CScopes) (d : Nat)
     (sp asp : Span) (op : Option InfixOp) (isp : Span) (ity : Ty) (b i r : Expr)
     (env : CEnv) (spec : St) (ip : Nat) (stk : List SVal) (mem : Mem)
@@ -256,16 +269,16 @@ theorem idxAssign_step (G : GCtx) (n : Nat) (hPX0 : PX G n) (hPX1 : PX G (n + 1)
       (fun x hx => hT x (Or.inl hx)) hplL hrel.rel hsp)
 
 /-- **The slot `o.f`**: `code(o); Member f` against `evalPlace`. -/
-theorem member_place (G : GCtx) (n : Nat) (hPX0 : PX G n) (A : Act) (hA : A.OK G)
+theorem member_place (G : GCtx) (n : Nat) (hPX0 : PV G n) (A : Act) (hA : A.OK G)
     (msp : Span) (mty : Ty) (b : Expr) (name : String) (lm : LM) (scopes : CScopes) (vm : List (String × Nat))
     (spec : St) (ip : Nat) (stk : List SVal) (mem : Mem)
-    (hl : Frag.okXE (.member msp mty b name .dot) = true) (hwl : Frag.wsGE scopes A.φ (.member msp mty b name .dot) = true)
+    (hl : Frag.okV G.fr (.member msp mty b name .dot) = true) (hwl : Frag.wsGE scopes A.φ (.member msp mty b name .dot) = true)
     (hT : ∀ x ∈ Frag.namesGE (.member msp mty b name .dot), x ∈ A.T)
     (hpl : Placed A.lab A.σ A.c ip (cgE G.mod (ρS scopes) A.φ (.member msp mty b name .dot) lm).1)
     (hrel : StRel G.mod A.T A.N A.σ G.lim A.mp scopes vm spec.scopes mem) (hsp : SpecOK G A.mp spec) :
     SimPl G A ip (nI (cgE G.mod (ρS scopes) A.φ (.member msp mty b name .dot) lm).1) stk mem spec
       (evalPlace G.cfg (n + 1) (.member msp mty b name .dot) spec) := by
-  simp only [Frag.okXE] at hl
+  have hl := okV_member hl
   have hwb : Frag.wsGE scopes A.φ b = true := by
     simpa [Frag.wsGE, Frag.varsGE, Frag.callsGE] using hwl
   have hTb : ∀ x ∈ Frag.namesGE b, x ∈ A.T := by
@@ -301,7 +314,7 @@ theorem member_place (G : GCtx) (n : Nat) (hPX0 : PX G n) (A : Act) (hA : A.OK G
   exact ⟨hfr1, hvar, mem1, cur, hread, (hrun1.trans hmr).cast (by omega), hml1⟩
 
 /-- **`o.f = e` and `o.f op= e`**. -/
-theorem memAssign_step (G : GCtx) (n : Nat) (hPX0 : PX G n) (hPX1 : PX G (n + 1))
+theorem memAssign_step (G : GCtx) (n : Nat) (hPX0 : PV G n) (hPX1 : PV G (n + 1))
     (A : Act) (hA : A.OK G) (loops : List (String × String)) (lscopes : CScopes) (d : Nat)
     (sp asp : Span) (op : Option InfixOp) (msp : Span) (mty : Ty) (b : Expr) (name : String) (r : Expr)
     (env : CEnv) (spec : St) (ip : Nat) (stk : List SVal) (mem : Mem)
